@@ -8,10 +8,10 @@ git -C $wt checkout -q -- . && git -C $wt reset -q --hard $(git -C /repo rev-par
 git -C $wt apply "$d/patch.diff" || { echo "PATCH DOES NOT APPLY"; exit 3; }
 cp /verif/known_findings.txt ${VERIF_VR:-/tmp/vr_mut}/
 if [ "$props" = all ]; then
-  VERIF_REPO=$wt VERIF_ROOT=${VERIF_VR:-/tmp/vr_mut} ${VERIF_BIN:-/verif/bin/asherah-verif} all 2>&1 | grep -E "^\S+: \[|SELFTEST|ERR|panic" | cut -c1-300
+  VERIF_REPO=$wt VERIF_ROOT=${VERIF_VR:-/tmp/vr_mut} ${VERIF_BIN:-/verif/bin/asherah-verif} all 2>&1 | grep -E "^\S*: \[|SELFTEST|ERR|panic:" | cut -c1-300
 else
   for p in ${props//,/ }; do
-    VERIF_REPO=$wt VERIF_ROOT=${VERIF_VR:-/tmp/vr_mut} ${VERIF_BIN:-/verif/bin/asherah-verif} check $p 2>&1 | grep -E "^\S+: \[|quick:|SELFTEST|ERR|panic" | cut -c1-300
+    VERIF_REPO=$wt VERIF_ROOT=${VERIF_VR:-/tmp/vr_mut} ${VERIF_BIN:-/verif/bin/asherah-verif} check $p 2>&1 | grep -E "^\S*: \[|quick:|SELFTEST|ERR|panic:" | cut -c1-300
   done
 fi
 git -C $wt checkout -q -- .
